@@ -3,6 +3,8 @@ import Std.Data.HashMap
 import TsVerif.Common.IO
 import TsVerif.Common.Tree
 import TsVerif.C16.Judge
+import TsVerif.C16.DeriveExec
+import TsVerif.C16.Inline
 /-!
 Driver for C16.  Input = explorer ops (spec / nodetypes / Rust-API answers) followed by the output of
 the C unit (table dumps, answers of the real C functions, real parse trees).  Output: one line per
@@ -69,6 +71,12 @@ structure LangInfo where
   flds : Array (List Nat × Nat) := #[]      -- name, real field_id_for_name answer
   sups : Array (Nat × List Nat) := #[]      -- supertype symbol, runtime subtypes (ts_language_subtypes)
   names : Array (List Nat) := #[]
+  gsyms : Array (Bool × Nat × Char × String) := #[]          -- is_rule, var, visibility, name
+  gprods : Array (Nat × List Derive.Step) := #[]             -- (var, production)
+  groots : List Nat := []
+  ginl : List Nat := []
+  gextra : List Nat := []
+  gskip : String := ""
   deriving Inhabited
 
 structure Flat where
@@ -104,6 +112,68 @@ def firstFail {α} (xs : List α) (f : α → Option String) : Option String :=
   xs.findSome? f
 
 def showName (bs : List Nat) : String := strOfHex (String.join (bs.map (fun b => (String.singleton (Nat.digitChar (b / 16))) ++ String.singleton (Nat.digitChar (b % 16)))))
+
+/-- `Closed` on real data: G = the grammar's productions (flattened by the explorer), I = the real
+node-types.json for every visible rule (type lists expanded through `subtypes`) + the least
+information of the hidden rules.  Returns "ok …", "FAIL …" or "SKIP …". -/
+def evalModelClosed (li : LangInfo) : String :=
+  if li.gskip != "" then s!"SKIP {li.gskip}" else
+  match li.nt with
+  | none => "SKIP no-node-types"
+  | some nt =>
+    if li.gsyms.isEmpty then "SKIP no-productions" else
+    let tyOf (vis : Char) (name : String) : Option TypeRef :=
+      if vis == 'n' then some ⟨name, true⟩ else if vis == 'a' then some ⟨name, false⟩ else none
+    let syms : List Derive.SymKind := li.gsyms.toList.map (fun (isRule, var, vis, name) =>
+      if isRule then .rule var (tyOf vis name) else .token (tyOf vis name))
+    let nvars := (li.gsyms.toList.filter (·.1)).length
+    let prods : List (List (List Derive.Step)) := (List.range nvars).map (fun v =>
+      (li.gprods.toList.filter (·.1 == v)).map (·.2))
+    let G0 : Derive.Grammar := { syms := syms, prods := prods }
+    -- process_inlines: substitution rounds of the Lean model (theorem `inline_round`) until no reference is left
+    match Derive.inlineRounds li.ginl 20000 6 G0 with
+    | none => "SKIP inlining-too-large-or-recursive"
+    | some G =>
+    let varSyms := li.gsyms.toList.filter (·.1)
+    let expand (ts : List TypeRef) : List TypeRef := (closure nt (closureFuel nt) ts).getD ts
+    -- every anonymous kind of the grammar (anonymous children without a field are not described by the file)
+    let anon : List TypeRef := (li.gsyms.toList.filterMap (fun (_, _, vis, name) => if vis == 'a' then some (⟨name, false⟩ : TypeRef) else none)) ++
+      (li.gprods.toList.flatMap (fun (_, p) => p.filterMap (fun s => match s.alias with | some a => if a.named then none else some a | none => none)))
+    let hidden : List Nat := (List.range nvars).filter (fun v => match varSyms[v]? with | some (_, _, vis, _) => vis == 'h' | none => true)
+    let init : Derive.InfoF := (List.range nvars).map (fun v =>
+      match varSyms[v]? with
+      | some (_, _, vis, name) =>
+        if vis == 'h' then { childMin := 2, plainMin := 2 } else
+        match nt.find? (fun e => e.ty == (⟨name, vis == 'n'⟩ : TypeRef)) with
+        | none => {}
+        | some e =>
+          let fields := e.fields.map (fun (f, sp) => (f, expand sp.types, (if sp.multiple then 2 else 1), (if sp.required then 1 else 0)))
+          let plain := match e.children with | some sp => expand sp.types | none => []
+          { children := (fields.flatMap (·.2.1)) ++ plain ++ anon, childMax := 2, childMin := 0, fields := fields,
+            plain := plain,
+            plainMax := (match e.children with | some sp => if sp.multiple then 2 else 1 | none => 0),
+            plainMin := (match e.children with | some sp => if sp.required then 1 else 0 | none => 0) }
+      | none => {})
+    let F := Derive.fieldUniverse G init
+    let I := Derive.iterate G F hidden (4 * nvars + 16) init
+    -- only the variables the file has to describe (start rule, extras, referenced ones) and the hidden ones are checked
+    let checked : List Nat := (List.range nvars).filter (fun v => li.groots.contains v)
+    let Gc : Derive.Grammar := { G with prods := (List.range nvars).map (fun v => if checked.contains v then G.prodsOf v else []) }
+    -- extras: every visible extra of the grammar is marked `extra: true` in the file
+    let extraBad := li.gextra.findSome? (fun sid => match li.gsyms[sid]? with
+      | some (_, _, vis, name) => match tyOf vis name with
+        | some ty => if nt.any (fun e => e.ty == ty && e.extra) then none else some name
+        | none => none
+      | none => none)
+    match extraBad with
+    | some name => s!"FAIL var={name}/extra-flag prod=0"
+    | none =>
+    if Derive.closedB Gc I then s!"ok vars={nvars} hidden={hidden.length} prods={li.gprods.size} inlined={li.ginl.length} prods_after={G.prods.foldl (fun a ps => a + ps.length) 0} extras={li.gextra.length}"
+    else match Derive.firstOpen Gc I with
+      | some (v, i) =>
+        let name := match varSyms[v]? with | some (_, _, vis, name) => s!"{name}/{vis}" | none => "?"
+        s!"FAIL var={name} prod={i}"
+      | none => "FAIL"
 
 /-- language-level evaluation, printed at `endlang` -/
 def evalLang (exact : Bool) (id : String) (li : LangInfo) : String :=
@@ -159,6 +229,7 @@ def evalLang (exact : Bool) (id : String) (li : LangInfo) : String :=
   let r (o : Option String) := match o with | none => "ok" | some m => "FAIL " ++ m
   let total := (li.la.toList.map List.length).foldl (· + ·) 0
   s!"L-{id} tablewf={if wf then "ok" else "FAIL"} corr_la={r corrLa} corr_lookup={r corrLookup} corr_names={r corrNames} " ++
+  s!"model_closed={evalModelClosed li} " ++
   s!"judge_la={r judgeLa} judge_names={r judgeNames} judge_sup={r judgeSup} supertypes={li.sups.size} model_names={modelNames} ntwf={ntwf} states={L.stateCount} large={L.largeStateCount} " ++
   s!"symbols={L.symbolCount} aliases={li.aliasCount} fields={li.fieldCount} listed={total} entries={(li.nt.getD []).length}"
 
@@ -205,6 +276,18 @@ def step (s : St) (line : String) : IO St := do
   let ws := line.splitOn " "
   match ws with
   | ["cfg", "errormode", m] => return { s with exact := m == "exact" }
+  | ["gsym", id, _, kind, var, vis, name] =>
+    return s.upd id (fun li => { li with gsyms := li.gsyms.push (kind == "R", natOf var, vis.toList.headD 'h', strOfHex name) })
+  | ["gprod", id, var, steps] =>
+    let ps : List Derive.Step := if steps == "-" then [] else (steps.splitOn ";").map (fun w => match w.splitOn "," with
+      | [sy, f, ak, an] => { sym := natOf sy, field := (if f == "-" then none else some (strOfHex f)),
+                             alias := (if ak == "-" then none else some ⟨strOfHex an, ak == "n"⟩) }
+      | _ => default)
+    return s.upd id (fun li => { li with gprods := li.gprods.push (natOf var, ps) })
+  | ["gend", id, roots] => return s.upd id (fun li => { li with groots := (roots.splitOn ",").map natOf })
+  | ["ginl", id, vs] => return s.upd id (fun li => { li with ginl := if vs == "-" then [] else (vs.splitOn ",").map natOf })
+  | ["gextra", id, vs] => return s.upd id (fun li => { li with gextra := if vs == "-" then [] else (vs.splitOn ",").map natOf })
+  | ["gskip", id, why] => return s.upd id (fun li => { li with gskip := why })
   | ["nodetypes", id, h] =>
     return s.upd id (fun li => { li with nt := parseNodeTypes (strOfHex h) })
   | ["rla", id, st, syms] =>
